@@ -398,6 +398,39 @@ pub fn run_real_timer(out: &mut Out, cfg: &Cfg, slow: usize) {
         start_query();
         out.stat("cancel_stress_timers", 3000);
     }
+    // every way of leaving solve()/solve_all() must leave no live timer behind: after answers, after
+    // `No more.`, after an abandoned query. A timer that is still running fires within a second and
+    // stops whatever query is then being asked through next_solution(). (A later timer start or
+    // cancel invalidates an older timer, so every path is probed on its own.)
+    if ok {
+        let mut kb = KnowledgeBase::new();
+        add_rules(&mut kb, vec![Rule{head: scomplex!(atom!("pp"), SInteger(1)), body: Goal::Nil}, Rule{head: scomplex!(atom!("pp"), SInteger(2)), body: Goal::Nil}]);
+        for path in 0..5 {
+            let mk = |f: &str| { let q = Rc::new(make_query(vec![atom!(f), logic_var!("$X")])); let sn = make_base_node(Rc::clone(&q), &kb); (q, sn) };
+            let what = match path {
+                0 => { let (_q, sn) = mk("pp"); for _ in 0..4 { let a = solve(Rc::clone(&sn)); if a == "No more." { break; } } "solve() asked until `No more.`" },
+                1 => { let (_q, sn) = mk("pp"); let _ = solve(Rc::clone(&sn)); "solve() asked once, query abandoned" },
+                2 => { let (_q, sn) = mk("qq"); let _ = solve(Rc::clone(&sn)); "solve() on a query without answers" },
+                3 => { let (_q, sn) = mk("pp"); let _ = solve_all(sn); "solve_all()" },
+                _ => { let (_q, sn) = mk("qq"); let _ = solve_all(sn); "solve_all() on a query without answers" },
+            };
+            out.cap.take();
+            // the next query is built now and asked through next_solution() 1.2 s later
+            let (q, sn) = mk("pp");
+            std::thread::sleep(std::time::Duration::from_millis(1200));
+            let stopped = query_stopped();
+            let mut answers = vec![];
+            while let Some(ss) = next_solution(Rc::clone(&sn)) { answers.push(term_str(&q.replace_variables(&ss))); if answers.len() > 5 { break; } }
+            out.cap.take();
+            start_query();
+            out.stat("leftover_timer_probes", 1);
+            if stopped || answers.len() != 2 {
+                ok = false;
+                msg = format!("a timer started by {} was still running after the call returned: 1.2 s later the stop flag was {} and a query with 2 answers, asked through next_solution(), gave {}", what, stopped, answers.len());
+                break;
+            }
+        }
+    }
     out.impl_line(id, "real");
     if cfg.want("C23") { out.oracle(id, "C23", ok, &msg); }
     if cfg.want("C22") { out.oracle(id, "C22", ok, &msg); }
